@@ -605,6 +605,9 @@ def judge_set(case, f, ctx, answers):
     r, lib = ctx["r"], ctx["lib"]
     desc = "yaml-set %s on %s [%s%s]" % (" ".join(_q(a) for a in ctx["argv"][:-1 if ctx["farg"] else None]), _show(ctx["text"]),
                                          case["delivery"], ", bad=%s" % case["bad"] if case["bad"] else "")
+    if r.get("timeout") and case["saveto"] and "(" in case["change"]:
+        f.viol("timeout:set:saveto-of-collector-result", "%s did not finish within its time limit" % desc)
+        return
     if crashed(f, "set", r, desc, lib.get("crash")):
         return
     if r.get("uncaught", "").endswith(("save_to_json_file", "save_to_yaml_file")):
@@ -996,6 +999,9 @@ def judge_merge(case, f, ctx, answers):
         if mo["errors"] > 0 or r["rc"] in (1, 3, 4) or mo["exit"] in (1, 3, 4):
             f.viol("merge-exit:impl=%d,model=%d%s" % (r["rc"], mo["exit"], unc(r)), "%s exits %d%s; the model of main() defines %d" % (
                 desc, r["rc"], unc(r), mo["exit"]))
+        elif r["rc"] >= 10 and mo["exit"] >= 10 and case["mode"] != "merge_across":
+            # a failed pairwise merge leaves the real left-hand document partly merged; later failures then differ
+            f.count("merge:state-differs-after-first-failure(model abstraction, as C18)")
         else:
             f.dis("merge-exit:impl=%d,model=%d" % (r["rc"], mo["exit"]), "%s exits %d; the Lean merge model %d" % (desc, r["rc"], mo["exit"]))
         return
